@@ -1,7 +1,12 @@
 import NdnModel.CodecIO
+import NdnModel.ClassMerge
 /-  C08 protocol:
     `C08 enc <schemas> <values>`           → `ok <hex> <announcedLength>` | `err <PyErr>`
     `C08 parse <schemas> <ic 0|1> <hex>`   → `ok <values>` | `err <PyErr>`
+    `C08 merge <bases> <body>`             → `ok -` | `ok <name>=<id>,…` | `err IncludeBaseError`
+        the metaclass (`Ndn.Codec.mergeFields`); a field is an opaque decimal identifier here
+        bases ::= - | base|base|…     base ::= ! (not a TlvModel) | . (no fields) | <name>=<id>,…
+        body  ::= - | <name>=<decl>,…  decl ::= f<id> | i<index into bases; ≥ their number: not a base> | o
     markers are printed as `_` here (offsets are compared in the packet properties). -/
 namespace Ndn.Drv.C08
 open Ndn Ndn.Codec
@@ -18,8 +23,40 @@ partial def hideMarker : Schema → Value → Value
   | _, v => v
 end
 
+def pNatS (s : String) : Option Nat := if s.isNat then some s.toNat! else none
+
+def pNamed (s : String) : Option (List Char × Nat) :=
+  match s.splitOn "=" with
+  | [n, v] => if n.isEmpty then none else (pNatS v).map fun i => (n.toList, i)
+  | _ => none
+
+def pBase (s : String) : Option (BaseCls (List Char) Nat) :=
+  if s == "!" then some none
+  else if s == "." then some (some [])
+  else ((s.splitOn ",").mapM pNamed).map some
+
+def pDecl (s : String) : Option (List Char × Decl Nat) :=
+  match s.splitOn "=" with
+  | [n, v] =>
+    if n.isEmpty then none
+    else match v.toList with
+      | ['o'] => some (n.toList, .other)
+      | 'f' :: r => (pNatS (String.ofList r)).map fun i => (n.toList, .field i)
+      | 'i' :: r => (pNatS (String.ofList r)).map fun i => (n.toList, .includeBase i)
+      | _ => none
+  | _ => none
+
 def handle1 (args : List String) : String :=
   match args with
+  | ["merge", bs, body] =>
+    match (if bs == "-" then some [] else (bs.splitOn "|").mapM pBase),
+          (if body == "-" then some [] else (body.splitOn ",").mapM pDecl) with
+    | some bases, some body =>
+      match mergeFields bases body with
+      | .ok [] => "ok -"
+      | .ok fs => "ok " ++ ",".intercalate (fs.map fun (n, i) => String.ofList n ++ "=" ++ toString i)
+      | .error .includeBaseError => "err IncludeBaseError"
+    | _, _ => "bad-op"
   | ["enc", ss, vs] =>
     match readSchemas ss, readValues vs with
     | some fs, some vals =>
